@@ -28,6 +28,19 @@ TEXT = {
         "level_note": "trusted: solver soundness; model R (machine arithmetic treated as mathematical); inductive consequences "
                       "psum-nonneg/psum-frame of the prefix-sum axioms; summation of the tiling step over the positive entries is meta-level induction",
     },
+    "C06": {
+        "technique": "contract-based deductive verification of the real C and Python sources: ACSL-style contracts and loop "
+                     "invariants on heap.c (pycparser front end: bounds / null / unsigned no-wrap obligations at every access), "
+                     "contracts on HeapScheduler and ListScheduler with the cffi calls checked against the C contracts; z3/cvc5",
+        "level_text": "all seven functions of heap.c and the push/trash/get methods of both schedulers are verified for every heap "
+                      "size (incl. reallocation and counter wrap-around): heap order with quotient-then-remainder comparison, returned "
+                      "entry live and minimal, empty scheduler raises, infinite times never stored / never first, no invalid memory "
+                      "access, no unsigned wrap; exact multiset preservation of the C array is NOT claimed (weaker clauses: new entry "
+                      "present, nothing of an absent handler invented)",
+        "level_note": "trusted: solver soundness; cffi glue (handles, OverflowError, callback binding); realloc/calloc models; model R for "
+                      "times (comparisons only); induction schema behind the root-minimality axiom (its step is proved); "
+                      "HeapScheduler.__getstate__/__setstate__ are outside the subset (see C19)",
+    },
 }
 
 NOT_APPLICABLE = {
